@@ -151,3 +151,39 @@ pub fn c08_native_determinism() {
     cases += check_template("binary_ga", whole_run_native::binary_template(8), &bp, false, None);
     println!("c08_native_determinism: {} runs / generator cases compared", cases);
 }
+
+/// `experiments::par_experiment` (the batch runner): "a generator supplied by the user is never replaced" holds for the setup
+/// closure handed to it as well, and without one each run is seeded with its run number (as documented).
+// @native-harness
+pub fn c08_native_experiment_runner() {
+    use crate::{experiments::par_experiment, problems::KnownOptimumProblem, Problem, SingleObjective};
+    use std::sync::{Arc, Mutex};
+    pub struct Exp;
+    impl Problem for Exp { type Encoding = u8; type Objective = SingleObjective; fn name(&self) -> &str { "Exp" } }
+    impl KnownOptimumProblem for Exp { fn known_optimum(&self) -> SingleObjective { SingleObjective::try_from(0.0).unwrap() } }
+    let mut cases = 0u64;
+    for user_seed in [None, Some(777u64), Some(0)] {
+        let seen: Arc<Mutex<Vec<(u64, u64)>>> = Arc::new(Mutex::new(Vec::new()));
+        let sink = seen.clone();
+        let config = Configuration::<Exp>::builder()
+            .debug(move |_, state| { let mut rng = state.random_mut(); let seed = rng.config().seed; let first = rng.next_u64(); sink.lock().unwrap().push((seed, first)); })
+            .build();
+        let folder = std::env::temp_dir().join(format!("verif_c08_experiment_{}_{}", std::process::id(), cases));
+        let runs = 4u64;
+        par_experiment(&config, |state: &mut State<Exp>| { if let Some(s) = user_seed { state.insert(Random::new(s)); } Ok(()) }, &[Exp], runs, &folder, false).expect("the experiment runner must not fail");
+        let _ = std::fs::remove_dir_all(&folder);
+        let mut got: Vec<(u64, u64)> = seen.lock().unwrap().clone();
+        got.sort();
+        let want: Vec<(u64, u64)> = match user_seed {
+            Some(s) => (0..runs).map(|_| (s, Random::new(s).next_u64())).collect(),
+            None => (0..runs).map(|r| (r, Random::new(r).next_u64())).collect(),
+        };
+        if got != want {
+            eprintln!("COUNTEREXAMPLE par_experiment with {} over {runs} runs: the runs saw the generators (seed, first draw) {got:?}, expected {want:?}",
+                      match user_seed { Some(s) => format!("a setup closure that inserts Random::new({s})"), None => "a setup closure that inserts no generator".to_string() });
+            panic!("a generator supplied by the user was replaced (or the default seeding changed)");
+        }
+        cases += 1;
+    }
+    println!("c08_native_experiment_runner: {} experiment configurations checked", cases);
+}
